@@ -211,6 +211,10 @@ func runC07(c *an.Check) {
 			c.Decide(an.AnyFact(facts, func(f an.Fact) bool { return an.EqIs(f, "==", "SwapData.OpeningTxBroadcasted", "nil") }),
 				"C07.R4", name+" broadcast-guard", w.Pos(call.Pos()), "broadcast is skipped when the record already holds an announcement",
 				"CreateOpeningTransaction is not guarded by `OpeningTxBroadcasted == nil`: a re-execution after restart broadcasts again. Facts: "+an.DescribeFacts(facts))
+			imp := impureCallsIn(w, fn, alreadyDoneRegion(w, fn, "SwapData.OpeningTxBroadcasted"))
+			c.Decide(len(imp) == 0, "C07.R4", name+" already-broadcast path", w.Pos(call.Pos()),
+				"a record that already holds the announcement succeeds without consulting outside services",
+				"on re-execution with the opening transaction already recorded (restart between the broadcast action and the next state) the action still calls "+strings.Join(imp, "; ")+" before it returns: a failure there cancels the swap although the funds are locked")
 			okE, _ := an.OkEdges(call)
 			if len(okE) == 0 {
 				c.Unknown("C07.R2", name+" after-broadcast", w.Pos(call.Pos()), "error result of CreateOpeningTransaction is not tested")
